@@ -10,7 +10,7 @@ trap 'git -C /repo worktree remove --force "$WT" >/dev/null 2>&1' EXIT
 cd "$WT"
 export CARGO_TARGET_DIR=/tmp/wt/verify_target
 ok=1
-suite() { cargo test --workspace --no-fail-fast --offline 2>&1 | grep -E "^test .* \.\.\. " | sed 's/ (line [0-9]*)//' | sort; }
+suite() { cargo test --workspace --no-fail-fast --offline -j 4 2>&1 | grep -E "^test .* \.\.\. " | sed 's/ (line [0-9]*)//' | sort; }
 cp "$SD/demo.rs" tests/seed_demo.rs
 echo "== demo WITHOUT patch"; if cargo test --offline --test seed_demo >/tmp/wt/v_demo0.log 2>&1; then echo "  passes (good)"; else echo "  FAILS without patch (bad)"; tail -15 /tmp/wt/v_demo0.log; ok=0; fi
 rm tests/seed_demo.rs
